@@ -584,6 +584,10 @@ func (root *Root) resolveField(
 		field.ConType = t
 		ea = append(ea, field.sortArgs()...)
 		if 0 < len(ea) {
+			// Leave the field unchecked so the errors are reported again
+			// for the next list member and the next time the executable is
+			// resolved instead of only the first time.
+			field.ConType = nil
 			Errors(ea).in(field.key())
 			return
 		}
